@@ -21,7 +21,11 @@ EXPLANATION = (
     "command installs Species' global tables (replacement, elements, pseudo-elements) before it constructs any Species; R9 every user setting "
     "BaseConfiguration.content writes is the stored field whole: the field itself, or a comprehension/helper that copies every entry (keys as "
     "strings) -- no filter drops entries on the way into the file; R12 every configured value the render command reads is handed to the API "
-    "parameter it stands for (Network(..) keyword, Species class table, chemistrydata.update_*, TemplateLoader(..)).")
+    "parameter it stands for (Network(..) keyword, Species class table, chemistrydata.update_*, TemplateLoader(..)); R13 the input stage "
+    "BaseConfiguration.__init__ stores every setting it is handed whole (the argument, a copy, an empty default) -- no filter between the "
+    "command and the writer; R7 also: the dependency list of an ODE-modifier term keeps repeated names (no set / dict.fromkeys in the option "
+    "parser or its helpers).  Verdicts: a mismatch counts as a VIOLATION only when both sides were read completely; a table handed whole to "
+    "a call that is not followed, a helper of another module, arguments passed on with * / ** answer UNRECOGNISED.")
 ASSUMPTIONS = [
     "the general case of option values containing separator characters, quoting through cleo's string input, and equality of the rendered sources with the API path are not decided",
 ]
